@@ -54,6 +54,11 @@ type compHandler func(args json.RawMessage) interface{}
 // component-level entry points are registered by the optional overlay files zz_verif_comp_*.go
 var compOps = map[string]compHandler{}
 
+func registerComp(name string, h compHandler) bool {
+	compOps[name] = h
+	return true
+}
+
 func runPipe() {
 	in := bufio.NewReaderSize(os.Stdin, 1<<20)
 	out := bufio.NewWriterSize(os.Stdout, 1<<20)
